@@ -174,12 +174,24 @@ fn r_param(p: &Param) -> String {
 
 fn r_body(f: &Fn, body_refs: &[String]) -> String {
   let uses: String = body_refs.iter().map(|r| format!(" void {};", r)).collect();
-  let ret = match f.analysis {
-    RetAnalysis::None => "".to_string(),
-    RetAnalysis::Void => " if (Math.random() > 2) { return; }".to_string(),
-    RetAnalysis::Single => " return compute();".to_string(),
-    RetAnalysis::Multiple => " if (Math.random() > 2) { return 1; } return compute();".to_string(),
-  };
+  // several shapes per class of body (which one depends on the signature only, so that rendering is a function of the declaration)
+  let v = (r_sig(f).bytes().fold(0u32, |h, b| h.wrapping_mul(31).wrapping_add(b as u32)) % 3) as usize;
+  let ret = match (f.analysis, v) {
+    (RetAnalysis::None, 0) => "",
+    (RetAnalysis::None, 1) => " for (;;) { break; }",
+    (RetAnalysis::None, _) => " switch (1) { case 1: break; }",
+    (RetAnalysis::Void, 0) => " if (Math.random() > 2) { return; }",
+    (RetAnalysis::Void, 1) => " try { return; } finally { }",
+    (RetAnalysis::Void, _) => " while (Math.random() > 2) { return; } return;",
+    (RetAnalysis::Single, 0) => " return compute();",
+    // a bare return before the one that carries a value: still one value-carrying return
+    (RetAnalysis::Single, 1) => " if (Math.random() > 2) return; return compute();",
+    (RetAnalysis::Single, _) => " switch (1) { case 1: return; } try { return compute(); } catch { }",
+    (RetAnalysis::Multiple, 0) => " if (Math.random() > 2) { return 1; } return compute();",
+    (RetAnalysis::Multiple, 1) => " switch (1) { case 1: return 1; default: return 2; }",
+    (RetAnalysis::Multiple, _) => " if (Math.random() > 2) return; while (Math.random() > 2) { return 1; } return compute();",
+  }
+  .to_string();
   format!("{{ console.log(\"body\");{}{}{} }}", uses, if f.is_gen { " yield 1;" } else { "" }, ret)
 }
 
@@ -344,7 +356,11 @@ pub fn render_file(f: &AFile) -> String {
     }
   }
   // helpers every body refers to; never part of the public API
-  s.push_str("function compute(): any { return 1; }\n");
+  if f.path.ends_with(".js") || f.path.ends_with(".mjs") {
+    s.push_str("function compute() { return 1; }\n");
+  } else {
+    s.push_str("function compute(): any { return 1; }\n");
+  }
   s
 }
 
